@@ -457,5 +457,5 @@ def run(prop: str, tier: str) -> int:
     kinds = ["C14v", "C14l"] if prop == "C14" else ["C15"]
     items = [(k, s, f) for s in shapes for f in ("plain", "math") for k in kinds]
     random.Random(seed()).shuffle(items)
-    collect(rep, pmap(worker, items, budget_s=400 if tier == "quick" else 1500, chunk=8))
+    collect(rep, pmap(worker, items, budget_s=400 if tier == "quick" else 600, chunk=8))
     return rep.finish(required_reach=["plain", "math"])
